@@ -199,7 +199,7 @@ let stopped_other_name iters dl i ty inst =
           | RPtr a -> a = inst && d.dl_rr.r_name = ty2 && d.dl_rr.r_type = ty_ptr | _ -> false) dl
       | _ -> false) it.i_calls) (take (i + 1) iters)
 
-let refine ifs iters (hidden : bool Lazy.t) (refreshc : bool Lazy.t) (withdrawn : bool Lazy.t) (f : fail) (tag : string) : string =
+let refine ifs iters (hidden : bool Lazy.t) (refreshc : bool Lazy.t) (withdrawn : bool Lazy.t) (overlap : bool Lazy.t) (f : fail) (tag : string) : string =
   let dl = all_dlvs ifs iters in
   match f with
   | F04_labels (_, ls) ->
@@ -222,6 +222,8 @@ let refine ifs iters (hidden : bool Lazy.t) (refreshc : bool Lazy.t) (withdrawn 
   (* the class found by C04_followups_as_specified_partial: ServiceFound for a PTR whose goodbye is in the same message *)
   | F04_followup (_, _, false) | F04_wake (_, _, false) ->
     if Lazy.force withdrawn then "followup:withdrawn-same-message" else tag
+  (* C04-stale-resolve-overlaps-series: two Resolve retransmissions of one instance queued at a retransmission pass *)
+  | F04_many _ -> if Lazy.force overlap then "many:overlapping-series" else tag
   | F04_order _ -> if known_browse_expiring ifs iters then "order:browse-expiring-ptr" else tag
   | _ -> tag
 
@@ -232,7 +234,8 @@ let verdict ifs iters (fs : fail list) : string =
     let hidden = lazy (known_removal_hidden ifs iters) in
     let refreshc = lazy (known_refresh_completes ifs iters) in
     let withdrawn = lazy (known_found_withdrawn ifs iters) in
-    let tagged = List.map (fun f -> let (t, d) = string_of_fail f in (refine ifs iters hidden refreshc withdrawn f t, d)) fs in
+    let overlap = lazy (known_overlapping_series ifs iters) in
+    let tagged = List.map (fun f -> let (t, d) = string_of_fail f in (refine ifs iters hidden refreshc withdrawn overlap f t, d)) fs in
     let tags = List.sort_uniq compare (List.map fst tagged) in
     Printf.sprintf "FAIL[%s] %s (%d failures)" (String.concat "," tags) (snd (List.hd tagged)) (List.length fs)
 
